@@ -146,6 +146,8 @@ def docs(kind, dom, name, L, quick):
         elif dom == "raw":
             D.append(("l", [("u1", "int"), ("u2", U)], bu, "[{'k': u1, 'j': 0}, u2, {1: 2, 'z': 0}, {}]"))
             D.append(("m", uu, bu, "{'a': {'k': u1}, 1: u2, None: {None: 0, 'j': 1, 1: 2}}"))
+        elif dom == "int" and name in ("in_", "not_in") and quick:
+            D.append(("l", [("s1", "str"), ("u2", U)], [f"len(s1) <= {L}", f"BU({L}, u2)"], "[s1, [0, 0], {'k': 0}, u2]"))
         elif dom == "int":
             D.append(("l", [("s1", "str"), ("u1", U), ("u2", U)], [f"len(s1) <= {L}"] + bu, "[s1, [u1, 0], {'k': 0}, u2]"))
             D.append(("m", [("s1", "str"), ("u2", U)], [f"len(s1) <= {L}", f"BU({L}, u2)"], "{'a': s1, 1: u2, None: {}}"))
